@@ -15,6 +15,13 @@ CLAIMED["C20"] = ("Every method of the three allocators (MemPool, AlignedAllocat
   "Assumed: sync.Pool contract (Get returns New() or an element previously Put; to a program that never uses a buffer after Free - property C11 - it is indistinguishable from a new one); the alignedIndexes table and pool capacities established by init() (axioms, init's loops are not verified); AlignedAllocator.AppendString's unsafe cast (trusted); debugger statistics (bodies not verified); object invariants of the allocators are established by the constructors (proved) and assumed at method entry; concurrent use relies on sync.Pool being linearizable.",
   "DESIGN.md 4 C20")
 
+CLAIMED["C01"] = ("The write path of conn_unix.go / sendfile_unix.go is under contract: newToWriteBuf, newToWriteFile, releaseToWrite, overflow, writeStream, doWrite, write, writev, Write, Writev, flush (with its two closures) and Sendfile. Proved for every kernel return (short write, EAGAIN, EINTR, error, sendfile returning 0): a call that returns nil reports the whole input length; accepted bytes == bytes handed to the kernel + bytes queued (stream-position ghosts gHead/gTail chained through the queue entries, checked as a monitor invariant of the connection mutex at every Unlock); nothing is handed to the kernel while a backlog exists (order); the queue tail holds exactly the bytes given (content clause over all positions); flush hands the kernel exactly the unsent part of the head entry and consumes it head first; the mutex is held from the closed check to the last queue update (atomicity of one call); panic-freedom and lock discipline of all these functions.",
+  "Assumed: kernel contracts of write/writev/sendfile/dup (result ranges, a successful non-empty write transfers at least one byte), TCP/Unix deliver what the kernel accepted, the allocator interface contract (proved under C20), user callbacks invoked under the mutex do not touch the connection, closeWithErrorWithoutLock (teardown) preserves the closed flag (contract trusted here, see C03), the raw writev syscall wrapper (unsafe) is trusted. The composition 'local tail-append/head-consume contracts imply the peer sees the concatenation' is the telescoping argument over the position ghosts, not a separate Lean lemma. Termination of flush's outer loop under repeated EINTR is not claimed.",
+  "DESIGN.md 4 C01")
+CLAIMED["C17"] = ("The backlog counter is tied to the true backlog by the queue invariant (left == gBTail - gBHead, where the buffer-byte positions are chained through every queue entry: each entry ends exactly its unsent bytes after its predecessor), preserved by every queue operation (append, coalesce, partial flush, pop, file entries contribute 0). overflow(n) is exactly MaxWriteBufferSize > 0 && left + n > max; write/writev return the overflow error in exactly that case and accept otherwise; left <= max is a monitor invariant of the connection mutex; an empty queue implies left == 0 (full budget back).",
+  "Assumed: as C01. Overflow closes the connection through closeWithErrorWithoutLock (contract trusted here). Signed arithmetic treated as mathematical (left + n does not overflow int64).",
+  "DESIGN.md 4 C17")
+
 NA = {
  "C18": "termination of Stop/Shutdown and release of goroutines/descriptors for all histories is liveness + whole-process resource state; no contract within reach of a per-function deductive verifier decides it (DESIGN.md 4 C18)",
 }
